@@ -184,6 +184,40 @@ def component_checks(quick):
                         if after is not before:
                             viol.append({"key": f"{cn}/{p}->{q}/component", "what": f"{cn}(growth_model={gm}): changing {p} to {v!r} rebuilt the component `{q}`",
                                          "replay": {"kind": "c13", "script": [f"o = {cn}(growth_model={gm!r}, ...)", f"c = o.{q}", f"o.update({p}={v!r})", f"o.{q} is c"]}})
+    # the underlying growth model is not re-run by parameters it does not take (splined and direct evaluation)
+    from hmf.cosmology import growth_factor as gfm
+    with warnings.catch_warnings():
+        warnings.simplefilter("ignore")
+        np.seterr(all="ignore")
+        for cn in ("Transfer", "MassFunction"):
+            cls = realfuzz.class_by_name(cn)
+            pars = set(realfuzz.parameters(cls))
+            for gm in ("GrowthFactor", "GenMFGrowth", "Carroll1992"):
+                gcls = getattr(gfm, gm)
+                orig = gcls.growth_factor_fn
+                count = [0]
+
+                def counted(self, *a, _o=orig, **k):
+                    count[0] += 1
+                    return _o(self, *a, **k)
+                gcls.growth_factor_fn = counted
+                try:
+                    o = cls(**dict(copy.deepcopy(realfuzz.BASE[cn]), growth_model=gm, use_splined_growth=True))
+                    o.growth_factor
+                    getattr(o, "power")
+                    for p, v in [("z", 0.5), ("z", 2.0), ("sigma_8", 0.9), ("n", 1.0), ("delta_c", 1.5), ("Mmin", 11), ("hmf_model", "PS"), ("z", 0.0)]:
+                        if p not in pars:
+                            continue
+                        before = count[0]
+                        o.update(**{p: v})
+                        o.growth_factor
+                        getattr(o, "power")
+                        n += 1
+                        if count[0] != before:
+                            viol.append({"key": f"{cn}/{p}->growth.growth_factor_fn/model-run", "what": f"{cn}(growth_model={gm}, use_splined_growth=True): changing {p} to {v!r} re-ran the growth model's tabulation (growth_factor_fn calls {before}->{count[0]})",
+                                         "replay": {"kind": "c13", "script": [f"o = {cn}(growth_model={gm!r}, use_splined_growth=True, ...)", "o.growth_factor", f"o.update({p}={v!r})", "o.growth_factor", "count calls of growth.growth_factor_fn"]}})
+                finally:
+                    gcls.growth_factor_fn = orig
     return viol, n
 
 
